@@ -18,6 +18,9 @@ type VerPairCase struct {
 	PY bool   `json:"py"`
 	// Want: expected verdict; Why explains it
 	Cross bool `json:"cross"` // ids of different families: must never match
+	// Ctx: "" = Satisfies(y, {x}); "long-list" = x sits among 40 unrelated entries; "long-expression" =
+	// y is one of 10 conjuncts, the other nine being on the list
+	Ctx string `json:"ctx,omitempty"`
 }
 
 func init() {
@@ -175,8 +178,30 @@ func spell(id string, plus bool) string {
 func checkC11Pair(c VerPairCase) Outcome {
 	tb := Tbl()
 	a, b := spell(c.Y, c.PY), spell(c.X, c.PX)
-	r := Satisfies(a, []string{b})
+	expr, list := a, []string{b}
+	switch c.Ctx {
+	case "long-list":
+		list = nil
+		pad := c11Padding(tb, 40)
+		at := int(hash64(a+b) % uint64(len(pad)+1))
+		list = append(append(append(list, pad[:at]...), b), pad[at:]...)
+	case "long-expression-both": // y+ and y in one ten-term conjunction: each keeps its own verdict
+		pad := c11Padding(tb, 8)
+		terms := append(append([]string{c.Y + "+"}, pad...), c.Y)
+		expr = strings.Join(terms, " AND ")
+		list = append(append([]string{}, pad...), b)
+	case "long-expression":
+		pad := c11Padding(tb, 9)
+		at := int(hash64(b+a) % uint64(len(pad)+1))
+		terms := append(append(append([]string{}, pad[:at]...), a), pad[at:]...)
+		expr = strings.Join(terms, " AND ")
+		list = append(append([]string{}, pad...), b)
+	}
+	r := Satisfies(expr, list)
 	key := fmt.Sprintf("C11/behaviour/%s | %s", a, b)
+	if c.Ctx != "" {
+		key += " | " + c.Ctx
+	}
 	// A failure is charged to the recorded "id at two positions" finding only when it is the one
 	// that finding describes: the other id sits in a family that the first-match lookup can never
 	// reach for the duplicated id. Anything else involving such an id is an ordinary violation.
@@ -195,31 +220,58 @@ func checkC11Pair(c VerPairCase) Outcome {
 		}
 	}
 	if r.Panic != "" || r.IsErr {
-		return fail(key, "Satisfies(%q, {%q}) = %s for two valid listed ids", a, b, r)
+		return fail(key, "Satisfies(%q, %q) = %s for valid listed ids", expr, list, r)
 	}
 	var want bool
 	var why string
+	if c.Ctx == "long-expression-both" && !c.Cross {
+		w1, _ := naturalWant(c.X, c.PX, c.Y, true)
+		w2, y2 := naturalWant(c.X, c.PX, c.Y, false)
+		if r.OK != (w1 && w2) {
+			return fail(key, "Satisfies(%q, %q) = %v, expected %v: %q alone gives %v and %q alone gives %v (%s)", expr, list, r.OK, w1 && w2, c.Y+"+", w1, c.Y, w2, y2)
+		}
+		return pass()
+	}
 	if c.Cross {
 		want, why = false, "ids of different families never match, with or without '+'"
 	} else {
-		vx, vy := ParseVer(c.X), ParseVer(c.Y)
-		px, py := effPlus(c.X, c.PX), effPlus(c.Y, c.PY)
-		cmp := CmpVer(vy, vx)
-		switch {
-		case px && py:
-			want, why = true, "both allow later versions of the same family"
-		case px:
-			want, why = cmp >= 0, fmt.Sprintf("%s allows the same or later versions; %s is %s", b, c.Y, cmpWord(cmp))
-		case py:
-			want, why = cmp <= 0, fmt.Sprintf("%s allows the same or later versions; %s is %s than %s", a, c.X, cmpWord(-cmp), c.Y)
-		default:
-			want, why = cmp == 0, "without '+' only equal versions match"
-		}
+		want, why = naturalWant(c.X, c.PX, c.Y, c.PY)
 	}
 	if r.OK != want {
-		return fail(key, "Satisfies(%q, {%q}) = %v, expected %v: %s", a, b, r.OK, want, why)
+		return fail(key, "Satisfies(%q, %q) = %v, expected %v: %s", expr, list, r.OK, want, why)
 	}
 	return pass()
+}
+
+// naturalWant: does y (with '+' iff py) match the allowed entry x (with '+' iff px), by the natural
+// order of the version numbers in the ids?
+func naturalWant(x string, px bool, y string, py bool) (bool, string) {
+	vx, vy := ParseVer(x), ParseVer(y)
+	ex, ey := effPlus(x, px), effPlus(y, py)
+	cmp := CmpVer(vy, vx)
+	switch {
+	case ex && ey:
+		return true, "both allow later versions of the same family"
+	case ex:
+		return cmp >= 0, fmt.Sprintf("%s allows the same or later versions; %s is %s", spell(x, px), y, cmpWord(cmp))
+	case ey:
+		return cmp <= 0, fmt.Sprintf("%s allows the same or later versions; %s is %s than %s", spell(y, py), x, cmpWord(-cmp), y)
+	}
+	return cmp == 0, "without '+' only equal versions match"
+}
+
+// c11Padding: n listed ids that sit in no family (neutral company for a pair under test).
+func c11Padding(tb *Tables, n int) []string {
+	var out []string
+	for _, id := range tb.Active {
+		if idShaped(id) && len(tb.Positions(id)) == 0 && !ParseVer(id).OK {
+			out = append(out, id)
+			if len(out) == n {
+				break
+			}
+		}
+	}
+	return out
 }
 
 func cmpWord(c int) string {
@@ -255,7 +307,7 @@ func TestC11_Structure(t *testing.T) {
 }
 
 func TestC11_InFamily(t *testing.T) {
-	rec := NewRecorder("C11", "in-family", "EVERY ordered pair (x,y) of ids of every table family x '+' on either side: Satisfies(y,{x}) vs the natural order of the version numbers parsed from the ids (not the table index); non-trivial = different ids; distinct by (x,y,+,+)")
+	rec := NewRecorder("C11", "in-family", "EVERY ordered pair (x,y) of ids of every table family x '+' on either side x context {alone, x among 40 unrelated allowed entries, y among 10 conjuncts}: Satisfies vs the natural order of the version numbers parsed from the ids (not the table index); non-trivial = different ids; distinct by (x,y,+,+)")
 	rec.Exhaustive = true
 	defer rec.Finish(t)
 	tb := Tbl()
@@ -270,7 +322,11 @@ func TestC11_InFamily(t *testing.T) {
 				}
 				for _, px := range []bool{false, true} {
 					for _, py := range []bool{false, true} {
-						jobs = append(jobs, VerPairCase{X: x, PX: px, Y: y, PY: py})
+						jobs = append(jobs, VerPairCase{X: x, PX: px, Y: y, PY: py},
+							VerPairCase{X: x, PX: px, Y: y, PY: py, Ctx: "long-list"}, VerPairCase{X: x, PX: px, Y: y, PY: py, Ctx: "long-expression"})
+						if !py && !strings.HasSuffix(y, "-or-later") {
+							jobs = append(jobs, VerPairCase{X: x, PX: px, Y: y, Ctx: "long-expression-both"})
+						}
 					}
 				}
 			}
@@ -285,7 +341,7 @@ func TestC11_InFamily(t *testing.T) {
 		} else if cmp < 0 {
 			cls = "y-earlier"
 		}
-		rec.Case(c.X != c.Y, fmt.Sprintf("%s|%s", spell(c.Y, c.PY), spell(c.X, c.PX)), fmt.Sprintf("Satisfies(%q,{%q})", spell(c.Y, c.PY), spell(c.X, c.PX)), cls)
+		rec.Case(c.X != c.Y, fmt.Sprintf("%s|%s|%s", spell(c.Y, c.PY), spell(c.X, c.PX), c.Ctx), fmt.Sprintf("Satisfies(%q,{%q}) %s", spell(c.Y, c.PY), spell(c.X, c.PX), c.Ctx), cls, "ctx-"+c.Ctx)
 		if !out.OK {
 			rec.Violate("c11-pair", out.Key, out.Msg, c)
 		}
